@@ -1208,9 +1208,47 @@ func (b *broker) subEventHistory(msg *wamp.Invocation) wamp.Message {
 			if storeItem, ok := b.eventHistoryStore[subscription]; ok {
 				isLimitReached = storeItem.atLimit()
 
-				var untilPubReached bool
+				// The publication bounds select a range of entries by position,
+				// whatever the other filters say about the entries that mark
+				// the bounds. A lower bound that is not in the history selects
+				// nothing; an upper bound that is not in the history does not
+				// bound. Bounds that contradict each other select nothing.
+				n := storeItem.entries.Len()
+				find := func(id wamp.ID) int {
+					for i := range n {
+						if storeItem.entries.At(i).event.Publication == id {
+							return i
+						}
+					}
+					return -1
+				}
+				lo, hi := 0, n
+				if fromPub != 0 {
+					if i := find(fromPub); i < 0 {
+						lo = n
+					} else {
+						lo = max(lo, i)
+					}
+				}
+				if afterPub != 0 {
+					if i := find(afterPub); i < 0 {
+						lo = n
+					} else {
+						lo = max(lo, i+1)
+					}
+				}
+				if beforePub > 0 {
+					if i := find(beforePub); i >= 0 {
+						hi = min(hi, i)
+					}
+				}
+				if untilPub > 0 {
+					if i := find(untilPub); i >= 0 {
+						hi = min(hi, i+1)
+					}
+				}
 
-				for i := 0; i < storeItem.entries.Len(); i++ {
+				for i := lo; i < hi; i++ {
 					entry := storeItem.entries.At(i)
 					if !fromDate.IsZero() && entry.event.timestamp.Before(fromDate) {
 						continue
@@ -1223,33 +1261,6 @@ func (b *broker) subEventHistory(msg *wamp.Invocation) wamp.Message {
 					}
 					if !untilDate.IsZero() && entry.event.timestamp.After(untilDate) {
 						continue
-					}
-					if fromPub != 0 {
-						if entry.event.Publication != fromPub {
-							continue
-						}
-						fromPub = 0
-					}
-					if afterPub != 0 {
-						if entry.event.Publication == afterPub {
-							afterPub = 0
-						}
-						continue
-					}
-					if beforePub > 0 && entry.event.Publication == beforePub {
-						break
-					}
-					if untilPub > 0 {
-						// We need to include specified event, but also we need
-						// to check it against remaining filters, so we rise up
-						// untilPubReached flag and break the cycle on next
-						// turn
-						if untilPubReached {
-							break
-						}
-						if entry.event.Publication == untilPub {
-							untilPubReached = true
-						}
 					}
 
 					if len(topicUri) > 0 {
